@@ -1,5 +1,5 @@
 #!/usr/bin/env python3
-"""Mutation sanity for the FX-C19-FB5 fix of ural/facebook.py (the blanks around each path segment are
+"""Mutation sanity for the FX-C19-d672644 fix of ural/facebook.py (the blanks around each path segment are
 dropped before routing): small breaking edits of the patched line, each in a scratch *copy* of the patched
 tree (no git involved).  For each: the 96 tests must still pass, and `URAL_REPO=<scratch> ./check C19` must
 print a VIOLATION line with a failing input.
